@@ -391,6 +391,9 @@ func (c *pfCtx) buildImpls(L [][]byte) []*pfImpl {
 }
 
 func (c *pfCtx) fail(f *core.Failure) {
+	if g := os.Getenv("GODEBUG"); g != "" { // CPU-mask runs: not part of the failure's identity, but needed to replay it
+		f.Args = strings.TrimSpace(f.Args + " GODEBUG=" + g)
+	}
 	c.rep.Fail(f)
 	c.mu.Lock()
 	c.failAPI[f.API]++
